@@ -283,28 +283,48 @@ Proof. induction l as [|x l IH]; simpl; auto. destruct (f x); simpl; now rewrite
 Lemma somes_map_Some {A} (l : list A) : somes (map Some l) = l.
 Proof. induction l; simpl; auto. now f_equal. Qed.
 
-(* Field.Args after sortArgs under any ConType still holds exactly the supplied arguments *)
+Lemma existsb_find_arg (l : list adef) (a : nat) :
+  existsb (fun d => Nat.eqb (a_name d) a) l = match find_arg a l with Some _ => true | None => false end.
+Proof. unfold find_arg. induction l as [|d r IH]; [reflexivity|]. simpl. destruct (Nat.eqb (a_name d) a); auto. Qed.
+
+(* what sortArgs reports: one error per argument the object type's field does not declare *)
+Lemma sort_args_errs t0 name args :
+  snd (sort_args S t0 name args) = map (fun _ => mkErr [] LOther EBadArg) (undeclared_args S t0 name args).
+Proof.
+  unfold sort_args, undeclared_args. destruct args as [|a0 args0].
+  { destruct (lookup t0 S) as [[k|fs ifaces|fs|ms|fs]|]; try reflexivity. destruct (find_field name fs); reflexivity. }
+  destruct (lookup t0 S) as [[k|fs ifaces|fs|ms|fs]|]; try reflexivity.
+  destruct (find_field name fs) as [fd|]; [|reflexivity]. cbn [snd].
+  set (l := a0 :: args0). clearbody l. induction l as [|x l IH]; [reflexivity|].
+  cbn [filter]. unfold declared_by. rewrite existsb_find_arg.
+  destruct (find_arg (fst x) (f_args fd)); cbn [negb map]; [exact IH|]. f_equal. exact IH.
+Qed.
+
+(* Field.Args after sortArgs under a ConType that declares every supplied argument still holds
+   exactly the supplied arguments *)
 Lemma sort_args_perm t0 name args :
-  wf_schema_args S = true -> field_args_ok S name args = true ->
+  wf_schema_args S = true -> NoDup (map fst args) -> undeclared_args S t0 name args = [] ->
   Permutation (somes (fst (sort_args S t0 name args))) args.
 Proof.
-  intros Hs Hf. unfold sort_args. destruct args as [|a0 args0]; [simpl; auto|].
+  intros Hs Hn Hu. unfold sort_args. destruct args as [|a0 args0]; [simpl; auto|].
   set (args := a0 :: args0) in *.
+  unfold undeclared_args in Hu.
   destruct (lookup t0 S) as [[k|fs ifaces|fs|ms|fs]|] eqn:El; try (cbn [fst]; rewrite somes_map_Some; auto).
   destruct (find_field name fs) as [fd|] eqn:Ef; [|cbn [fst]; rewrite somes_map_Some; auto].
   cbn [fst]. rewrite somes_map.
-  unfold field_args_ok in Hf. apply andb_true_iff in Hf. destruct Hf as [Hn Hall].
-  apply nodup_nat_spec in Hn. rewrite forallb_forall in Hall.
-  specialize (Hall _ (lookup_In _ _ _ El)). cbn [snd] in Hall. rewrite Ef in Hall.
-  rewrite forallb_forall in Hall.
   unfold wf_schema_args in Hs. rewrite forallb_forall in Hs.
   specialize (Hs _ (lookup_In _ _ _ El)). cbn [snd] in Hs. rewrite forallb_forall in Hs.
   assert (Hfd : In fd fs) by (unfold find_field in Ef; apply find_some in Ef; tauto).
   specialize (Hs _ Hfd). apply nodup_nat_spec in Hs.
   pose proof (select_perm (map a_name (f_args fd)) args Hs Hn) as P.
   rewrite flat_map_concat_map, map_map, <- flat_map_concat_map in P. apply P.
-  intros av Hav. specialize (Hall _ Hav). apply existsb_exists in Hall.
-  destruct Hall as [d [Hd E]]. apply Nat.eqb_eq in E. rewrite <- E. now apply in_map.
+  intros av Hav.
+  assert (Hd : declared_by fd av = true).
+  { destruct (declared_by fd av) eqn:E; auto. exfalso.
+    assert (Hin : In av (filter (fun av0 => negb (declared_by fd av0)) args)) by (apply filter_In; rewrite E; auto).
+    rewrite Hu in Hin. inversion Hin. }
+  unfold declared_by in Hd. apply existsb_exists in Hd.
+  destruct Hd as [d [Hd E]]. apply Nat.eqb_eq in E. rewrite <- E. now apply in_map.
 Qed.
 
 End Args.
@@ -845,6 +865,9 @@ Lemma sem_field_eq fuel' (obj : gv) (id : nat) (alias : option nat) (name : nat)
   sem_field (Datatypes.S fuel') obj id alias name args fsels t depth path =
       let key := key_of alias name in
       let here := path ++ [PKey key] in
+      match undeclared_args S t name args with
+      | (_ :: _) as bad => Done ([], map (fun _ => at_path here LOther EBadArg) bad, [])
+      | [] =>
       if Nat.eqb name TYPENAME then Done ([(key, RTypeName t)], [], [])
       else
         match get_field_def S t name with
@@ -879,7 +902,8 @@ Lemma sem_field_eq fuel' (obj : gv) (id : nat) (alias : option nat) (name : nat)
                       end
                 end
             end
-        end.
+        end
+      end.
 Proof. reflexivity. Qed.
 
 (* end of unfolding equations *)
@@ -1089,53 +1113,34 @@ Proof.
   - destruct (Nat.eqb (a_name x) a); eauto.
 Qed.
 
-Lemma declared_of_ok t name args fs :
-  field_args_ok S name args = true ->
-  In (t, fs) S ->
-  forall fl fd, (snd (t, fs) = DObject fl [] \/ True) ->
-  (match fs with DObject fl' _ | DInterface fl' => find_field name fl' = Some fd | _ => False end) ->
-  forall av, In av args -> In (fst av) (map a_name (f_args fd)).
-Proof.
-  intros Hf Hin fl fd _ Hfd av Hav.
-  unfold field_args_ok in Hf. apply andb_true_iff in Hf. destruct Hf as [_ Hall].
-  rewrite forallb_forall in Hall. specialize (Hall _ Hin). cbn [snd] in Hall.
-  destruct fs as [k|fl' ifaces|fl'|ms|fl']; try contradiction; rewrite Hfd in Hall;
-    rewrite forallb_forall in Hall; specialize (Hall _ Hav); apply existsb_exists in Hall;
-    destruct Hall as [d [Hd E]]; apply Nat.eqb_eq in E; rewrite <- E; now apply in_map.
-Qed.
-
-Lemma sort_args_noerr t name args :
-  field_args_ok S name args = true -> snd (sort_args S t name args) = [].
-Proof.
-  intros Hf. unfold sort_args. destruct args as [|a0 args0]; [reflexivity|].
-  set (args := a0 :: args0) in *.
-  destruct (lookup t S) as [[k|fs ifaces|fs|ms|fs]|] eqn:El; try reflexivity.
-  destruct (find_field name fs) as [fd|] eqn:Ef; [|reflexivity]. cbn [snd].
-  rewrite filter_nil; [reflexivity|].
-  intros av Hav.
-  pose proof (declared_of_ok t name args (DObject fs ifaces) Hf (lookup_In _ _ _ El) fs fd (or_intror I) Ef av Hav) as Hd.
-  apply find_arg_In in Hd. destruct Hd as [d Hd]. now rewrite Hd.
-Qed.
-
 Lemma field_def_props t name fd args :
-  get_field_def S t name = Some fd -> field_args_ok S name args = true ->
+  get_field_def S t name = Some fd -> field_args_ok S name args = true -> undeclared_args S t name args = [] ->
   NoDup (map a_name (f_args fd)) /\ NoDup (map fst args) /\
   (forall av, In av args -> In (fst av) (map a_name (f_args fd))).
 Proof.
-  intros Hg Hf. unfold get_field_def in Hg.
+  intros Hg Hf Hu. unfold get_field_def in Hg.
+  assert (Hn : NoDup (map fst args)).
+  { unfold field_args_ok in Hf. apply andb_true_iff in Hf. apply nodup_nat_spec. tauto. }
   destruct (lookup t S) as [[k|fs ifaces|fs|ms|fs]|] eqn:El; try discriminate.
-  - split; [|split].
+  - split; [|split; [exact Hn|]].
     + unfold wf_schema_args in Hschema. rewrite forallb_forall in Hschema.
       specialize (Hschema _ (lookup_In _ _ _ El)). cbn [snd] in Hschema. rewrite forallb_forall in Hschema.
       apply nodup_nat_spec. apply Hschema. unfold find_field in Hg. apply find_some in Hg. tauto.
-    + unfold field_args_ok in Hf. apply andb_true_iff in Hf. apply nodup_nat_spec. tauto.
-    + apply (declared_of_ok t name args (DObject fs ifaces) Hf (lookup_In _ _ _ El) fs fd (or_intror I) Hg).
-  - split; [|split].
+    + intros av Hav. unfold undeclared_args in Hu. rewrite El, Hg in Hu.
+      assert (Hd : declared_by fd av = true).
+      { destruct (declared_by fd av) eqn:E; auto. exfalso.
+        assert (Hin : In av (filter (fun av0 => negb (declared_by fd av0)) args)) by (apply filter_In; rewrite E; auto).
+        rewrite Hu in Hin. inversion Hin. }
+      unfold declared_by in Hd. apply existsb_exists in Hd.
+      destruct Hd as [d [Hd E]]. apply Nat.eqb_eq in E. rewrite <- E. now apply in_map.
+  - split; [|split; [exact Hn|]].
     + unfold wf_schema_args in Hschema. rewrite forallb_forall in Hschema.
       specialize (Hschema _ (lookup_In _ _ _ El)). cbn [snd] in Hschema. rewrite forallb_forall in Hschema.
       apply nodup_nat_spec. apply Hschema. unfold find_field in Hg. apply find_some in Hg. tauto.
-    + unfold field_args_ok in Hf. apply andb_true_iff in Hf. apply nodup_nat_spec. tauto.
-    + apply (declared_of_ok t name args (DInterface fs) Hf (lookup_In _ _ _ El) fs fd (or_intror I) Hg).
+    + intros av Hav. unfold field_args_ok in Hf. apply andb_true_iff in Hf. destruct Hf as [_ Hall].
+      rewrite forallb_forall in Hall. specialize (Hall _ (lookup_In _ _ _ El)). cbn [snd] in Hall.
+      rewrite Hg in Hall. rewrite forallb_forall in Hall. specialize (Hall _ Hav). apply existsb_exists in Hall.
+      destruct Hall as [d [Hd E]]. apply Nat.eqb_eq in E. rewrite <- E. now apply in_map.
 Qed.
 
 
@@ -1187,19 +1192,30 @@ Proof.
   lazymatch goal with
   | |- rel _ _ _ ?E1 _ => lazymatch E1 with match ?T with _ => _ end => set (TT := T) end
   end.
-  assert (Htrip : TT = (fst (sort_args S t name args), [])).
-  { subst TT. pose proof (sort_args_noerr t name args Hargs) as Hne.
-    destruct (sort_args S t name args) as [a e]. simpl in Hne. subst e. reflexivity. }
+  assert (Htrip : TT = (fst (sort_args S t name args), map (fun _ => mkErr [] LOther EBadArg) (undeclared_args S t name args))).
+  { subst TT. rewrite <- sort_args_errs. destruct (sort_args S t name args); reflexivity. }
   clearbody TT. subst TT. cbv iota beta.
   set (s0 := mkSt ((id, t) :: s_args s) (s_calls s)).
   assert (Hs0 : s_calls s0 = s_calls s) by reflexivity. clearbody s0.
-  pose proof (sort_args_perm S t name args Hschema Hargs) as Hperm.
+  destruct (undeclared_args S t name args) as [|b0 bad] eqn:Hu.
+  2:{ (* an undeclared argument: errors at the selection, no entry, nothing resolved *)
+      assert (Hmap : forall l : list arg,
+                 map (fun _ => at_path here LOther EBadArg) l =
+                 path_errs path (errs_in (PKey key) (map (fun _ => mkErr [] LOther EBadArg) l))).
+      { induction l as [|x l IH]; [reflexivity|]. cbn [map]. rewrite IH. unfold path_errs, errs_in. cbn [map].
+        f_equal. }
+      unfold rel. split; [reflexivity|]. split; [rewrite Hmap; apply Permutation_refl|].
+      rewrite Hs0. now rewrite app_nil_r. }
+  cbn [map].
+  assert (Hnd : NoDup (map fst args)).
+  { unfold field_args_ok in Hargs. apply andb_true_iff in Hargs. apply nodup_nat_spec. tauto. }
+  pose proof (sort_args_perm S t name args Hschema Hnd Hu) as Hperm.
   set (cur := fst (sort_args S t name args)) in *. clearbody cur.
   destruct (Nat.eqb name TYPENAME).
   { simpl. repeat split; auto. rewrite Hs0. now rewrite app_nil_r. }
   destruct (get_field_def S t name) as [fd|] eqn:Eg.
   2:{ simpl. repeat split; auto. rewrite Hs0. now rewrite app_nil_r. }
-  destruct (field_def_props t name fd args Eg Hargs) as [Hdn [Han Hin]].
+  destruct (field_def_props t name fd args Eg Hargs Hu) as [Hdn [Han Hin]].
   rewrite strategy_answerer.
   pose proof (args_agree S vars id fd args cur here Hdn Han Hin Hperm) as [Hc [Hcn He]].
   destruct (form_args S vars id fd cur) as [cargs ea_args].
